@@ -77,7 +77,7 @@ extern "C" int LLVMFuzzerTestOneInput(const uint8_t *data, size_t size) {
     ShapeParams sp;
     sp.enc = h[1] % 3 == 0 ? 1 : h[1] % 3 == 1 ? 2 : 4;
     sp.dir = h[2] & 7;
-    static const float ppms[] = {0, 0, 12.f, 96.5f, 1e-3f, 4096.f, 1000.f, 0.5f};
+    static const float ppms[] = {0, -13.f, 12.f, 96.5f, 1e-3f, 4096.f, -20.f, 0.5f};   // negative: hinted font (shape_case.h)
     sp.ppm = (h[0] & 8) ? ppms[h[3] & 7] : 0;
     sp.nul_terminate = h[5] & 1;
     sp.query_all = true;
@@ -120,6 +120,7 @@ extern "C" int LLVMFuzzerTestOneInput(const uint8_t *data, size_t size) {
         if (r.st.order_differs) S.add("segs_reordered");
         if (illformed) S.add("segs_illformed_text");
         if (sp.ppm > 0) S.add("segs_with_font");
+        if (sp.ppm < 0) S.add("segs_with_hinted_font");
         for (auto &p : r.passes) if (p.iters * 2 > pass_bound(p)) S.add("pass_iters_over_half_bound");
         // non-triviality per property (DESIGN section 5); hashes recorded only for the property under report
         static const char *rep = getenv("FZ_REPORT");
